@@ -124,6 +124,8 @@ def run(ctx):
                 return False
         return True
     ctx.extra["borrowed_buffer_calls"] = H.borrowed_cases(ctx, bjudge, quick_subset=ctx.quick)
+    # ... and when a mismatch warning is turned into an exception by the caller's warning filter
+    ctx.extra["warnings_as_errors_calls"] = H.warnings_as_errors_cases(ctx, lambda info, w, before, o, after, sb, sa: bjudge(info, w, before, o, after))
     ctx.extra["irregular_objects_with_get_timestamps"] = GT[0]
     for r in world.records:
         ctx.case(r["line"], nontrivial=not r.get("malformed"))
